@@ -183,8 +183,19 @@ def _process_step_expression(
             # expression target assets.
             lh_targets, _ = _process_step_expression(
                 lang_graph, model, target_assets, step_expression['lhs'])
-            return _process_step_expression(lang_graph, model, lh_targets,
-                step_expression['rhs'])
+            # The right hand side is evaluated for each of the left hand
+            # targets separately, since set operators and variables inside
+            # it are relative to one asset, and the results are united.
+            new_target_assets = []
+            attack_step = None
+            for lh_target in lh_targets:
+                rh_targets, attack_step = _process_step_expression(
+                    lang_graph, model, [lh_target], step_expression['rhs'])
+                for rh_target in rh_targets:
+                    if next((asset for asset in new_target_assets \
+                            if asset.id == rh_target.id), None) is None:
+                        new_target_assets.append(rh_target)
+            return (new_target_assets, attack_step)
 
 
         case _:
